@@ -279,7 +279,7 @@ def run(ctx):
     res, rng = ctx.result, ctx.rng
     pair_campaign(ctx, 6000 if ctx.thorough else (1200 if ctx.escalate else 500))
     pair_fair_campaign(ctx, 3000 if ctx.thorough else (600 if ctx.escalate else 250))
-    n = 700 if ctx.thorough else (150 if ctx.escalate else 40)
+    n = 700 if ctx.thorough else (100 if ctx.escalate else 40)
     cases = [c for c in ctx.corpus if 'faults' in c]
     if ctx.replay and ctx.replay.get('case', {}).get('faults'): cases = [ctx.replay['case']]; n = 0
     if ctx.replay and ctx.replay.get('case', {}).get('feed') == 'pair': n = 0
